@@ -3,6 +3,7 @@ import tables as T
 from cfg import cfg_of
 from flow import Taint, Tracker, callee_matches, field_reads, op_local, prep, backward, backward_calls
 from rules import CallGuard, CallSink, CmpGuard, RetSink, AggSink, BlockSink, FieldOptGuard, compare_sites
+from rules import PL
 from props.C03 import PV, KIND, STORE_FNS
 from props.C04 import call_results, agg_field_operands, ARMS, SRIR, STORE
 
@@ -69,7 +70,8 @@ def run(R):
         prep(ak)
 
         def holder(b):
-            return Taint(b).closure(Taint(b).var_locals("holder"))
+            # the advertising peer: payload of sender.as_peer_id()
+            return Taint(b, through="all").closure(call_results(["ant_protocol::NetworkAddress::as_peer_id"])(b))
 
         def selfid(b):
             return Taint(b).closure({d for d, r, p in field_reads(b, "self_peer_id")})
@@ -82,7 +84,7 @@ def run(R):
                descr="advertisements are acted on only from a peer among the closest K and not from self")
         # the holder handed to add_keys is the sender
         ta = Taint(ak, through="all")
-        snd = ta.closure(Taint(ak).var_locals("sender"))
+        snd = ta.closure(PL(ak, 1))  # (self, sender, incoming_keys)
         cs = [b for b in ak.blocks if b["term"]["k"] == "call" and callee_matches(b["term"], [ADDK])]
         ok = bool(cs) and all(op_local(b["term"]["args"][1]) in snd for b in cs)
         if not ok:
@@ -147,8 +149,11 @@ def run(R):
         for b in F.item(ADDK):
             prep(b)
             ta = Taint(b, through="all")
-            stored = ta.closure(Taint(b).var_locals("locally_stored_keys") - ({1} if b.kind == "closure" else set()))
-            types = Taint(b).closure({l for l in Taint(b).var_locals("record_type")})
+            stored = ta.closure(PL(b, 3)) if b.kind != "closure" else set()
+            # advertised types: RecordType values coming out of the incoming_keys parameter
+            from flow import locals_of_type
+            adv = Taint(b, through="all").closure(PL(b, 2)) if b.kind != "closure" else set()
+            types = {l for l in adv if "RecordType" in b.locals.get(str(l), "") and "HashMap" not in b.locals.get(str(l), "") and "Vec" not in b.locals.get(str(l), "")} - stored
             for s in compare_sites(b):
                 la, lb = op_local(s["a"]), op_local(s["b"])
                 if s["op"] in ("Eq", "Ne") and ((la in stored and lb in types and la not in types) or (lb in stored and la in types and lb not in types)):
